@@ -3,7 +3,7 @@
 # (1) patch applies to a clean worktree, (2) the workspace test suite passes with it (flaky test_tcp ignored),
 # (3) the demo fails with it and passes without it.  Prints a one-line JSON summary.
 ID=$1; M=$2
-W=/tmp/mut/$ID; O=$W/out/$M
+BASE=${MUTBASE:-/tmp/mut}; PFX=${MUTPFX:-}; W=$BASE/$ID; O=$W/out/$M
 cd $W || exit 2
 git checkout -q -- . 2>/dev/null
 export CARGO_NET_OFFLINE=true
@@ -14,7 +14,7 @@ run_demo() {
   return 99
 }
 run_demo; CLEAN=$?
-git apply $O/patch.diff || { echo "{\"id\":\"$ID/$M\",\"applies\":false}"; exit 1; }
+git apply $O/patch.diff || { echo "{\"id\":\"$PFX$ID/$M\",\"applies\":false}"; exit 1; }
 run_demo; MUT=$?
 # the baseline suite; unshare gives a private network namespace when available so fixed ports do not collide
 if unshare -rn true 2>/dev/null; then RUNNER="unshare -rn sh -c"; PRE="ip link set lo up 2>/dev/null;"; else RUNNER="sh -c"; PRE=""; fi
@@ -29,4 +29,4 @@ for ATTEMPT in 1 2 3; do
   pkill -f "$W/target/debug/deps" 2>/dev/null
 done
 git checkout -q -- .
-echo "{\"id\":\"$ID/$M\",\"applies\":true,\"demo_clean_exit\":$CLEAN,\"demo_mutant_exit\":$MUT,\"suite_passed\":$PASSED,\"suite_failed_nonflaky\":$FAILED,\"compile_errors\":$COMPILED}"
+echo "{\"id\":\"$PFX$ID/$M\",\"applies\":true,\"demo_clean_exit\":$CLEAN,\"demo_mutant_exit\":$MUT,\"suite_passed\":$PASSED,\"suite_failed_nonflaky\":$FAILED,\"compile_errors\":$COMPILED}"
